@@ -4,6 +4,7 @@ From QI Require Import Base.Scalar.
 Open Scope Z_scope.
 Definition zops : sops Z := {|
   s0 := 0; s1 := 1; sadd := Z.add; smul := Z.mul; ssub := Z.sub; sopp := Z.opp;
-  sdiv := Z.div; ssqrt := Z.sqrt; sltb := Z.ltb; sleb := Z.leb; seqb := Z.eqb; sabs := Z.abs |}.
+  sdiv := Z.div; ssqrt := Z.sqrt; sltb := Z.ltb; sleb := Z.leb; seqb := Z.eqb; sabs := Z.abs;
+  snormal := fun x => negb (Z.eqb x 0) |}.
 Lemma zops_ring : ring_theory (s0 zops) (s1 zops) (sadd zops) (smul zops) (ssub zops) (sopp zops) (@eq Z).
 Proof. exact Zth. Qed.
